@@ -66,7 +66,7 @@ def obligations(tier, kf):
     obs.append(Ob('j_path_json', {'N': 2}, 600).mutant('path_json_no_dir'))
     g = Ob('g_upgrade', {'VL': 1 if tier == 'quick' else 2}, 900,
            desc='snapshots of every older format version 4..17 (inverse format history) load to the recorded configuration')
-    obs += [g, g.twin(), g.mutant('env_upgrade_v8_merged_into_v9')]
+    obs += [g, g.twin(), g.mutant('env_upgrade_v8_merged_into_v9'), g.mutant('env_upgrade_initial_or_current')]
     di = Ob('d_install_dirs_replay', {'VL': 1 if tier == 'quick' else 2}, 600,
             desc='install_dirs() of a toolchain file under the three regeneration modes')
     obs += [di, di.twin(), di.mutant('toolchain_install_dirs_lazy')]
